@@ -116,3 +116,29 @@ Definition bind (t : ty) (m : str) (params query : data) (b : body) : outcome :=
 Definition at_p (p : path) (w : path * list str) : bool := if list_eq_dec Nat.eq_dec (fst w) p then true else false.
 Definition final (ws : list (path * list str)) (p : path) : option (list str) :=
   match find (at_p p) (rev ws) with Some w => Some (snd w) | None => None end.
+
+(* ---- map destinations: map[string]string and map[string]interface{} take the first value of every key,
+   map[string][]string all of them; any other element type is left alone.  No tags are involved: every key of every
+   applicable source is bound, later sources overriding earlier ones key by key. *)
+Inductive mapmode := MFirst | MAll | MIgnored.
+Definition map_entries (mode : mapmode) (d : data) : data :=
+  match mode with
+  | MIgnored => []
+  | MFirst => map (fun kv => (fst kv, firstn 1 (snd kv))) d
+  | MAll => d
+  end.
+Inductive map_outcome := MBound (kvs : data) | MStatus (code : nat).
+Definition bind_map (mode : mapmode) (m : str) (params query : data) (b : body) : map_outcome :=
+  let w1 := map_entries mode params in
+  let w2 := if is_query_method m then map_entries mode query else [] in
+  match b with
+  | BNone => MBound (w1 ++ w2)
+  | BForm d => MBound (w1 ++ w2 ++ map_entries mode d)
+  | BMalformedForm => MStatus 400
+  | BUnsupported => MStatus 415
+  | BOracle _ => MBound (w1 ++ w2)
+  | BOracleError => MStatus 400
+  end.
+(* the value a key ends up with: that of the last entry for it *)
+Definition map_final (kvs : data) (k : str) : option (list str) :=
+  match find (fun kv => str_eqb (fst kv) k) (rev kvs) with Some kv => Some (snd kv) | None => None end.
